@@ -668,7 +668,7 @@ def subscript(interp, base: V, idx: V, node) -> Optional[V]:
                 return Top("str slice")
         return Term("item", [base, idx])
     if isinstance(base, DictV):
-        if isinstance(idx, Const) and idx.v in base.d and not base.stores:
+        if isinstance(idx, Const) and idx.v in base.d and dict_stores_exact(base):
             return base.d[idx.v]
         if isinstance(idx, Const) and not base.stores and getattr(base, "complete", False) and idx.v not in base.d:
             interp.raises.append(("KeyError", interp.guards(), f"{interp.where()}: key {idx.v!r} is not in the table"))
@@ -703,6 +703,13 @@ def _slice_bounds(idx: Term):
     lo, hi, st = idx.args
     f = lambda x: None if (isinstance(x, Const) and x.v is None) else (x.p if isinstance(x, Num) else "?")
     return f(lo), f(hi), f(st)
+
+
+def dict_stores_exact(d) -> bool:
+    """every store into the dictionary so far had a constant key and was executed unconditionally (no undecided guard, no loop):
+    the key -> value table kept in `d.d` is then the exact content"""
+    return all(isinstance(i_, Const) and not any(getattr(f_, "kind", None) in ("loop", "guard") for f_ in fr_)
+               for (fr_, i_, v_, a_, st_) in d.stores)
 
 
 def _band_bounds(lo: V, hi: V, n=None):
@@ -1447,6 +1454,8 @@ def call_ext(interp, dotted: str, args: List[V], kwargs: Dict[str, V], node, cc)
     if d == "itertools.combinations" and len(args) == 2 and isinstance(args[1], Num) and args[1].p == Poly.const(2):
         n = value_len(args[0])
         src_v = args[0]
+        if n is None and isinstance(src_v, Term) and src_v.op == "range" and len(src_v.args) == 1 and isinstance(src_v.args[0], Num):
+            n = src_v.args[0].p          # combinations(range(n), 2): the elements are the positions themselves
         if n is not None:
             return Term("combinations2", [Num(n), src_v])
         return None
